@@ -261,3 +261,110 @@ Definition sout_eqb (a b : sout) : bool :=
 Definition c05_check (c : syscfg * list (N * N * bop) * list sout) : bool :=
   let '(cfg, ops, obs) := c in
   list_eqb sout_eqb (sys_run (sys_new cfg) ops) obs.
+
+(** * Specification vocabulary used by the theorems (props/C05.v) *)
+
+(* non-decreasing instants, none before [lo] *)
+Fixpoint nondec (lo : N) (ts : list N) : Prop :=
+  match ts with
+  | [] => True
+  | t :: r => lo <= t /\ nondec t r
+  end.
+
+Definition apop_time (o : apop) : N := match o with AReq t | ARst t => t end.
+
+(* number of requests answered `true` whose instant lies in the closed window [lo, hi] *)
+Fixpoint allowed_in (lo hi : N) (ts : list N) (vs : list (outcome bool)) : N :=
+  match ts, vs with
+  | t :: tr, v :: vr =>
+      (match v with
+       | Ok true => if (lo <=? t) && (t <=? hi) then 1 else 0
+       | _ => 0
+       end) + allowed_in lo hi tr vr
+  | _, _ => 0
+  end.
+
+(* instant of the most recent request answered `true` (for the position limiter: or of the
+   most recent reset(), which also restarts the limiter's clock) *)
+Fixpoint last_allowed (acc : option N) (ts : list N) (vs : list (outcome bool)) : option N :=
+  match ts, vs with
+  | t :: tr, v :: vr => last_allowed (match v with Ok true => Some t | _ => acc end) tr vr
+  | _, _ => acc
+  end.
+
+Fixpoint ap_last_event (acc : option N) (ops : list apop) (vs : list (outcome bool)) : option N :=
+  match ops, vs with
+  | AReq t :: tr, v :: vr => ap_last_event (match v with Ok true => Some t | _ => acc end) tr vr
+  | ARst t :: tr, _ :: vr => ap_last_event (Some t) tr vr
+  | _, _ => acc
+  end.
+
+(* state after a run (Panic if any step panics) *)
+Fixpoint rl_exec (s : rl) (ts : list N) : outcome rl :=
+  match ts with
+  | [] => Ok s
+  | t :: r => match rl_allow s t with
+              | Panic k => Panic k
+              | Ok (s', _) => rl_exec s' r
+              end
+  end.
+
+Fixpoint ap_exec (s : ap) (ops : list apop) : outcome ap :=
+  match ops with
+  | [] => Ok s
+  | AReq t :: r => match ap_allow s t with
+                   | Panic k => Panic k
+                   | Ok (s', _) => ap_exec s' r
+                   end
+  | ARst t :: r => ap_exec (ap_reset s t) r
+  end.
+
+(** * Specification vocabulary for the bar-level theorems *)
+
+(* the live state after one more call – independent of every limiter *)
+Definition upd (f : frame) (o : bop) : frame :=
+  let '(p, l, m) := f in
+  match o with
+  | OInc d => (wadd64 p d, l, m)
+  | ODec d => (wsub64 p d, l, m)
+  | OSetPos q => (q, l, m)
+  | OTick => f
+  | OSetMsg m' => (p, l, m')
+  | OSetLen l' => (p, l', m)
+  | OReset => (0, l, m)
+  end.
+
+(* instant of the most recent call that painted a frame *)
+Fixpoint last_paint (acc : option N) (ts : list N) (vs : list sout) : option N :=
+  match ts, vs with
+  | t :: tr, v :: vr =>
+      last_paint (match v with Ok (_, Some _) => Some t | _ => acc end) tr vr
+  | _, _ => acc
+  end.
+
+(* calls on the single bar of a stand-alone system *)
+Definition std_ops (ops : list (N * bop)) : list (N * N * bop) :=
+  map (fun '(t, o) => (t, 0, o)) ops.
+
+(** * The limiter BEFORE fix commits e4a1051 / 3894c8b (documentation only: defects D12, D13).
+    interval = floor(1000 / rate) milliseconds; the cap was applied after the `- 1`. *)
+Definition rl_new_old (rate now : N) : rl :=
+  {| rl_interval := 1000 / rate; rl_cap := RL_MAX_BURST; rl_prev := now |}.
+
+Definition rl_allow_old (s : rl) (now : N) : rl * bool :=
+  if now <? rl_prev s then (s, false)
+  else
+    let elapsed := now - rl_prev s in
+    if (rl_cap s =? 0) && (elapsed <? rl_interval s * 1000000) then (s, false)
+    else
+      let new := (elapsed / 1000000) / rl_interval s in
+      let remainder := elapsed mod (rl_interval s * 1000000) in
+      ({| rl_interval := rl_interval s;
+          rl_cap := N.min RL_MAX_BURST (rl_cap s + new - 1);
+          rl_prev := now - remainder |}, true).
+
+Fixpoint rl_run_old (s : rl) (ts : list N) : list (outcome bool) :=
+  match ts with
+  | [] => []
+  | t :: r => let '(s', v) := rl_allow_old s t in Ok v :: rl_run_old s' r
+  end.
